@@ -83,7 +83,7 @@ def value_feature(v):
     return k
 
 
-def run_case(case):
+def run_case(case, reader=None, prop="C01", check_errors=False):
     """Returns ("ok"|"refused", info) or ("fail", signature, detail)."""
     enc = case["enc"]
     spec = case["spec"]
@@ -97,28 +97,31 @@ def run_case(case):
     except (ValueError, TypeError) as e:
         return ("refused", type(e).__name__)
     except Exception as e:
-        return ("fail", f"C01/{enc}/encode-raises/{type(e).__name__}",
+        return ("fail", f"{prop}/{enc}/encode-raises/{type(e).__name__}",
                 f"encode raised {type(e).__name__}: {e}")
-    reader = STRICT_READER[enc]
+    reader = reader or STRICT_READER[enc]
     p = budget_parser(reader)
     try:
         m2 = p.parse(text)
     except BudgetExceeded:
-        return ("fail", f"C01/{enc}/reload-spins", f"text={text!r}")
+        return ("fail", f"{prop}/{enc}/reload-spins", f"text={text!r}")
     except Exception as e:
-        return ("fail", f"C01/{enc}/reload-fails/{type(e).__name__}",
-                f"strict {reader} load raised {type(e).__name__}: "
+        return ("fail", f"{prop}/{enc}/reload-fails/{type(e).__name__}",
+                f"{reader} load raised {type(e).__name__}: "
                 f"{str(e)[:200]}; text={text!r}")
     n = nm.norm_for(enc, reader)
     exp = nm.expect_module(spec, n)
     got = nm.canon(m2)
     d = nm.diff(exp, got, allow_g2o=(enc == "PDS3"))
     if d is None:
+        if check_errors and list(getattr(m2, "errors", [])) != []:
+            return ("fail", f"{prop}/{enc}/errors-not-empty",
+                    f"module.errors == {m2.errors!r}; text={text!r}")
         return ("ok", text)
     path, e, g = d
     ek = _dk(e, path)
     gk = _dk(g, path)
-    return ("fail", f"C01/{enc}/diff/{ek}->{gk}",
+    return ("fail", f"{prop}/{enc}/diff/{ek}->{gk}",
             f"at {path}: expected {e!r} got {g!r}; text={text!r}")
 
 
